@@ -35,6 +35,9 @@ checks = {
  "C13": ("lmtp", "Lmtp.tla models the status collector as the code builds it (one bounded channel per distinct address, capacity = multiplicity) with the backend as a nondeterministic program running concurrently with the emitter; TLC checks for every recipient list up to the bound, every program within the contract and every interleaving that each reply carries the right status, channels never overflow, no deadlock, termination; every recipient list x program x status timing (before/after consuming the message) x return {nil, error, panic} is then run on the real LMTP server via DATA, BDAT LAST in one and two chunks, a backend failing inside the LAST chunk, and plain backends, and the recorded reply sequences are judged by TLC against Lmtp!Expected; replies must name their recipient; a final response that never completes is reported when the handler is proven blocked",
          "recipient lists up to 3 (quick) / 4 (thorough) over two addresses; backend programs stay within the documented contract",
          "TLA+ model checking (TLC, safety + liveness) + exhaustive program enumeration on the real server judged by TLC"),
+ "C16": ("dotenc", "DotEnc.tla defines the client's dot-encoding and Normalize over body tokens {'.', bare LF, CRLF, other}; TLC proves for every body up to the bound that the server-side declarative reader (DataStream.tla) recovers Normalize(body) from DotEncode(body) and that the first end marker is the client's own; every body up to length 5 (quick) / 7 (thorough) plus random longer ones is written through the real client in three Write partitions to a real server (SMTP and LMTP, accepting and rejecting) and the octet classes the backend read are judged by TLC against Normalize; envelope, the identity of the other octets, Close's verdict, the error of a second Close and the undisturbed next command are checked by the harness",
+         "CR occurs only inside CRLF in the generated bodies, as the property assumes",
+         "TLA+ encode/decode theorem (TLC) + recorded client-to-server transfers judged by TLC"),
  "C17": ("reply", "Reply.tla defines Format (what the server writes for an error: enhanced code on every line, X.0.0 when unset, none when explicitly absent) and Parse (what the go-smtp client recovers) over a token alphabet {ASCII word, non-ASCII word, enhanced-code look-alike, space}; TLC proves Parse(Format(e)) = Norm(e) for every message up to the bound except the shapes that are ambiguous on the wire by construction; a scripted backend then returns each error shape from each of the four callbacks, the raw reply is tokenised and the real client's *SMTPError recorded, and TLC judges wire form and client result per case; codes, concrete enhanced code values, exact text and the generic 451/554 mapping are compared by the harness",
          "token shapes up to 3 tokens x 2 lines (quick) / 3 lines (thorough); adjacent words are not a distinct shape",
          "TLA+ round-trip theorem (TLC) + recorded server/client results judged by TLC"),
